@@ -6,6 +6,7 @@ import (
 	"fmt"
 	"math"
 	"sort"
+	"strconv"
 	"strings"
 
 	"github.com/risor-io/risor/ast"
@@ -97,6 +98,10 @@ func New(options ...Option) (*Compiler, error) {
 			name:    "__main__",
 			symbols: NewSymbolTable(),
 		}
+	} else {
+		// Function ids must stay unique within the code: continue after the
+		// ones the supplied code already holds
+		c.funcIndex = maxFunctionIndex(c.main)
 	}
 	// Insert any supplied names for globals into the symbol table
 	sort.Strings(c.globalNames)
@@ -111,6 +116,20 @@ func New(options ...Option) (*Compiler, error) {
 	// Start compiling into the main code object
 	c.current = c.main
 	return c, nil
+}
+
+// maxFunctionIndex returns the highest function id used in the code tree.
+func maxFunctionIndex(code *Code) int {
+	highest := 0
+	if n, err := strconv.Atoi(code.functionID); err == nil && n > highest {
+		highest = n
+	}
+	for _, child := range code.children {
+		if n := maxFunctionIndex(child); n > highest {
+			highest = n
+		}
+	}
+	return highest
 }
 
 // Code returns the compiled code for the entrypoint.
